@@ -31,7 +31,7 @@ FUNCTIONS = ['penman.model.Model.__init__ (_role_re)',
              'penman.transform.canonicalize_roles',
              'penman.transform._canonicalize_node']
 BOUNDS = {
-    'quick': 'role strings of <= 7 characters (6 for the custom table; any '
+    'quick': 'role strings of <= 7 characters (5 for the custom table; any '
              'Unicode, no LF) under default/no-op/custom; AMR: every catalogue base x k in 0..4; '
              'trees of <= 2 branches',
     'thorough': 'role strings <= 9 characters; trees <= 3 branches',
@@ -285,7 +285,7 @@ def obligations(tier: str) -> List[dict]:
     ncat = len(amr_catalogue())
     if tier == 'quick':
         for m in ('default', 'noop', 'custom'):
-            laws(m, True, 6 if m == 'custom' else 7, 400,
+            laws(m, True, 5 if m == 'custom' else 7, 400,
                  ['inverted'] if m != 'noop' else [])
             laws(m, False, 3, 300)
         obs.append({'name': f'E2 AMR structured roles ({ncat} bases x k<=4)',
